@@ -41,7 +41,7 @@ func (c *Ctx) havocResults(st *State, call *ast.CallExpr, prefix string) []Val {
 }
 
 func (c *Ctx) evalCallMode(st *State, call *ast.CallExpr, spawn bool) []Val {
-	if c.prefix == "" && c.unit.Contract != nil && len(c.unit.Contract.Points) > 0 {
+	if c.prefix == "" && c.unit.Contract != nil && (len(c.unit.Contract.Points) > 0 || len(c.unit.Contract.PointGhosts) > 0) {
 		if n, ok := c.callOrd[call]; ok {
 			c.pointClauses(st, fmt.Sprintf("before call %s#%d", types.ExprString(call.Fun), n), call.Pos())
 			rs := c.evalCallInner(st, call, spawn)
